@@ -451,12 +451,34 @@ func Run(prop string, legacy bool) {
 		r.txCases(gen(rnd, nin, nout, c.Thorough()), -1, "generated")
 	}
 	// output scripts, previous scripts and unlocking scripts of 76, 255, 256 and 300 bytes (where a script push prefix
-	// and the compact-size length prefix of the preimage differ), on every input
-	for _, n := range []int{76, 255, 256, 300} {
+	// and the compact-size length prefix of the preimage differ; 252..254: the compact-size boundary itself), on every input
+	longs := []int{76, 252, 253, 254, 255, 256, 300}
+	if c.Thorough() {
+		longs = append(longs, 65535, 65536)
+	}
+	for _, n := range longs {
 		s := gen(rnd, 2, 3, false)
 		s.Outs[0].Script, s.Outs[2].Script = common.Hex(rnd.Bytes(n)), common.Hex(rnd.Bytes(n+1))
 		s.Ins[1].Prev, s.Ins[0].Unlock, s.Ins[0].UnlockNil = common.Hex(rnd.Bytes(n)), common.Hex(rnd.Bytes(n)), false
 		r.txCases(s, -1, "long-scripts")
+	}
+	// the null previous txid is a txid like any other (32 bytes): on the signed input, on another input, and in the shape of a
+	// coinbase transaction (one input, null txid, outpoint index or sequence number 0xffffffff)
+	{
+		zero := common.Hex(make([]byte, 32))
+		s := gen(rnd, 2, 2, false)
+		s.Ins[1].Txid = zero
+		r.txCases(s, -1, "null-txid")
+		for k := 0; k < 3; k++ {
+			s = gen(rnd, 1, 1+k%2, false)
+			s.Ins[0].Txid = zero
+			s.Ins[0].Vout, s.Ins[0].Seq = []uint32{0xffffffff, 0, 0xffffffff}[k], []uint32{0, 0xffffffff, 0xffffffff}[k]
+			if s.Ins[0].Prev == "" {
+				s.Ins[0].Prev = "51"
+			}
+			s.Ins[0].PrevNil = false
+			r.txCases(s, -1, "coinbase-shaped")
+		}
 	}
 	// missing previous script on the signed input / on another input; empty (non-nil) script
 	{
